@@ -10,6 +10,9 @@
 (*   eq    : PartialEq is defined -> original == restored is one more observation             *)
 (*   fnv   : configurations that carry a function-pointer tokenizer (not serialisable)        *)
 (*   rearm : the tokenizer function can be set again on a restored value                      *)
+(*   wide  : the value has matrix / vector parameters applied to the records: it is also       *)
+(*           exercised on 8..12 features (inp.wide = 1) so that unrolled kernels and layout-   *)
+(*           dependent code paths are reached, through every public calling form              *)
 (* Not in the catalogue, with the reason: the AppxDbscan types (aliases of the DBSCAN types  *)
 (* in the pinned tree, the appx_dbscan module is not compiled); ArgminParam and the naive-    *)
 (* Bayes class-info structs (not nameable outside their crates, observed inside their         *)
@@ -17,99 +20,99 @@
 (* KernelView (borrowed, cannot be deserialised by construction).                             *)
 EXTENDS Naturals, Sequences
 
-T(name, role, gen, nvar, eq, fnv, rearm) ==
-  [name |-> name, role |-> role, gen |-> gen, nvar |-> nvar, eq |-> eq, fnv |-> fnv, rearm |-> rearm]
+T(name, role, gen, nvar, eq, fnv, rearm, wide) ==
+  [name |-> name, role |-> role, gen |-> gen, nvar |-> nvar, eq |-> eq, fnv |-> fnv, rearm |-> rearm, wide |-> wide]
 
 Catalogue == <<
-  T("Error", "plain", FALSE, 5, FALSE, {}, FALSE),
-  T("Error.NdShape", "skipped", FALSE, 1, FALSE, {}, FALSE),
-  T("PlattError", "plain", FALSE, 6, FALSE, {}, FALSE),
-  T("L1Dist", "plain", FALSE, 1, TRUE, {}, FALSE),
-  T("L2Dist", "plain", FALSE, 1, TRUE, {}, FALSE),
-  T("LInfDist", "plain", FALSE, 1, TRUE, {}, FALSE),
-  T("LpDist", "plain", TRUE, 2, TRUE, {}, FALSE),
-  T("KdTree", "plain", FALSE, 1, TRUE, {}, FALSE),
-  T("BallTree", "plain", FALSE, 1, TRUE, {}, FALSE),
-  T("LinearSearch", "plain", FALSE, 1, TRUE, {}, FALSE),
-  T("CommonNearestNeighbour", "plain", FALSE, 3, TRUE, {}, FALSE),
-  T("Dbscan", "plain", FALSE, 1, TRUE, {}, FALSE),
-  T("Optics", "plain", FALSE, 1, TRUE, {}, FALSE),
-  T("GmmCovarType", "plain", FALSE, 1, TRUE, {}, FALSE),
-  T("GmmInitMethod", "plain", FALSE, 2, TRUE, {}, FALSE),
-  T("KMeansInit", "plain", TRUE, 4, TRUE, {}, FALSE),
-  T("KMeansParams", "params", TRUE, 6, TRUE, {}, FALSE),
-  T("KMeansValidParams", "params", TRUE, 3, TRUE, {}, FALSE),
-  T("KMeans", "model", TRUE, 3, TRUE, {}, FALSE),
-  T("GmmParams", "params", TRUE, 4, TRUE, {}, FALSE),
-  T("GmmValidParams", "params", TRUE, 2, TRUE, {}, FALSE),
-  T("GaussianMixtureModel", "model", TRUE, 2, TRUE, {}, FALSE),
-  T("DbscanValidParams", "params", TRUE, 3, TRUE, {}, FALSE),
-  T("OpticsParams", "params", TRUE, 4, TRUE, {}, FALSE),
-  T("OpticsValidParams", "params", TRUE, 2, TRUE, {}, FALSE),
-  T("OpticsAnalysis", "model", TRUE, 2, TRUE, {}, FALSE),
-  T("OpticsSample", "model", TRUE, 2, TRUE, {}, FALSE),
-  T("Link", "plain", FALSE, 3, TRUE, {}, FALSE),
-  T("LinearRegression", "params", TRUE, 2, TRUE, {}, FALSE),
-  T("FittedLinearRegression", "model", TRUE, 2, TRUE, {}, FALSE),
-  T("FittedIsotonicRegression", "model", TRUE, 1, TRUE, {}, FALSE),
-  T("TweedieRegressorValidParams", "params", TRUE, 3, TRUE, {}, FALSE),
-  T("TweedieRegressor", "model", TRUE, 3, TRUE, {}, FALSE),
-  T("ElasticNetError", "plain", FALSE, 8, FALSE, {}, FALSE),
-  T("ElasticNetValidParams", "params", TRUE, 4, TRUE, {}, FALSE),
-  T("ElasticNet", "model", TRUE, 4, FALSE, {}, FALSE),
-  T("MultiTaskElasticNetValidParams", "params", TRUE, 2, TRUE, {}, FALSE),
-  T("MultiTaskElasticNet", "model", TRUE, 2, FALSE, {}, FALSE),
-  T("LogisticRegressionParams", "params", TRUE, 5, TRUE, {}, FALSE),
-  T("LogisticRegressionValidParams", "params", TRUE, 3, TRUE, {}, FALSE),
-  T("FittedLogisticRegression", "model", TRUE, 3, TRUE, {}, FALSE),
-  T("BinaryClassLabels", "model", TRUE, 2, TRUE, {}, FALSE),
-  T("ClassLabel", "model", TRUE, 2, TRUE, {}, FALSE),
-  T("MultiLogisticRegressionParams", "params", TRUE, 3, TRUE, {}, FALSE),
-  T("MultiLogisticRegressionValidParams", "params", TRUE, 2, TRUE, {}, FALSE),
-  T("MultiFittedLogisticRegression", "model", TRUE, 2, TRUE, {}, FALSE),
-  T("ExitReason", "plain", FALSE, 2, TRUE, {}, FALSE),
-  T("SeparatingHyperplane", "plain", TRUE, 2, TRUE, {}, FALSE),
-  T("KernelMethod", "plain", TRUE, 3, TRUE, {}, FALSE),
-  T("Kernel", "model", TRUE, 4, TRUE, {}, FALSE),
-  T("Svm.bool", "model", TRUE, 3, TRUE, {}, FALSE),
-  T("Svm.Pr", "model", TRUE, 2, TRUE, {}, FALSE),
-  T("Svm.reg", "model", TRUE, 2, TRUE, {}, FALSE),
-  T("Svm.oneclass", "model", TRUE, 2, TRUE, {}, FALSE),
-  T("SplitQuality", "plain", FALSE, 2, TRUE, {}, FALSE),
-  T("DecisionTreeParams", "params", TRUE, 4, TRUE, {}, FALSE),
-  T("DecisionTreeValidParams", "params", TRUE, 3, TRUE, {}, FALSE),
-  T("DecisionTree", "model", TRUE, 3, TRUE, {}, FALSE),
-  T("TreeNode", "model", TRUE, 3, TRUE, {}, FALSE),
-  T("GaussianNbValidParams", "params", TRUE, 2, TRUE, {}, FALSE),
-  T("GaussianNb", "model", TRUE, 3, TRUE, {}, FALSE),
-  T("MultinomialNbValidParams", "params", TRUE, 2, TRUE, {}, FALSE),
-  T("MultinomialNb", "model", TRUE, 2, TRUE, {}, FALSE),
-  T("FtrlError", "plain", FALSE, 7, FALSE, {}, FALSE),
-  T("FtrlParams", "params", TRUE, 4, TRUE, {}, FALSE),
-  T("FtrlValidParams", "params", TRUE, 2, TRUE, {}, FALSE),
-  T("Ftrl", "model", TRUE, 2, FALSE, {}, FALSE),
-  T("PlsRegression", "model", TRUE, 2, TRUE, {}, FALSE),
-  T("PlsCanonical", "model", TRUE, 2, TRUE, {}, FALSE),
-  T("PlsCca", "model", TRUE, 2, TRUE, {}, FALSE),
-  T("PlsSvdParams", "params", TRUE, 2, TRUE, {}, FALSE),
-  T("PcaParams", "params", FALSE, 2, TRUE, {}, FALSE),
-  T("Pca", "model", FALSE, 2, TRUE, {}, FALSE),
-  T("GFunc", "plain", FALSE, 3, TRUE, {}, FALSE),
-  T("FastIcaValidParams", "params", TRUE, 3, TRUE, {}, FALSE),
-  T("FastIca", "model", TRUE, 3, TRUE, {}, FALSE),
-  T("TfIdfMethod", "plain", FALSE, 3, TRUE, {}, FALSE),
-  T("WhiteningMethod", "plain", FALSE, 3, TRUE, {}, FALSE),
-  T("ScalingMethod", "plain", TRUE, 3, TRUE, {}, FALSE),
-  T("NormScaler", "params", TRUE, 3, TRUE, {}, FALSE),
-  T("LinearScalerParams", "params", TRUE, 5, TRUE, {}, FALSE),
-  T("LinearScaler", "model", TRUE, 4, TRUE, {}, FALSE),
-  T("Whitener", "params", TRUE, 3, TRUE, {}, FALSE),
-  T("FittedWhitener", "model", TRUE, 3, TRUE, {}, FALSE),
-  T("CountVectorizerParams", "params", FALSE, 5, FALSE, {2}, TRUE),
-  T("CountVectorizerValidParams", "params", FALSE, 3, FALSE, {2}, FALSE),
-  T("CountVectorizer", "model", FALSE, 3, FALSE, {2}, TRUE),
-  T("TfIdfVectorizer", "params", FALSE, 4, FALSE, {2}, TRUE),
-  T("FittedTfIdfVectorizer", "model", FALSE, 3, FALSE, {2}, TRUE)
+  T("Error", "plain", FALSE, 5, FALSE, {}, FALSE, FALSE),
+  T("Error.NdShape", "skipped", FALSE, 1, FALSE, {}, FALSE, FALSE),
+  T("PlattError", "plain", FALSE, 6, FALSE, {}, FALSE, FALSE),
+  T("L1Dist", "plain", FALSE, 1, TRUE, {}, FALSE, FALSE),
+  T("L2Dist", "plain", FALSE, 1, TRUE, {}, FALSE, FALSE),
+  T("LInfDist", "plain", FALSE, 1, TRUE, {}, FALSE, FALSE),
+  T("LpDist", "plain", TRUE, 2, TRUE, {}, FALSE, FALSE),
+  T("KdTree", "plain", FALSE, 1, TRUE, {}, FALSE, FALSE),
+  T("BallTree", "plain", FALSE, 1, TRUE, {}, FALSE, FALSE),
+  T("LinearSearch", "plain", FALSE, 1, TRUE, {}, FALSE, FALSE),
+  T("CommonNearestNeighbour", "plain", FALSE, 3, TRUE, {}, FALSE, FALSE),
+  T("Dbscan", "plain", FALSE, 1, TRUE, {}, FALSE, FALSE),
+  T("Optics", "plain", FALSE, 1, TRUE, {}, FALSE, FALSE),
+  T("GmmCovarType", "plain", FALSE, 1, TRUE, {}, FALSE, FALSE),
+  T("GmmInitMethod", "plain", FALSE, 2, TRUE, {}, FALSE, FALSE),
+  T("KMeansInit", "plain", TRUE, 4, TRUE, {}, FALSE, FALSE),
+  T("KMeansParams", "params", TRUE, 6, TRUE, {}, FALSE, TRUE),
+  T("KMeansValidParams", "params", TRUE, 3, TRUE, {}, FALSE, TRUE),
+  T("KMeans", "model", TRUE, 3, TRUE, {}, FALSE, TRUE),
+  T("GmmParams", "params", TRUE, 4, TRUE, {}, FALSE, TRUE),
+  T("GmmValidParams", "params", TRUE, 2, TRUE, {}, FALSE, TRUE),
+  T("GaussianMixtureModel", "model", TRUE, 2, TRUE, {}, FALSE, TRUE),
+  T("DbscanValidParams", "params", TRUE, 3, TRUE, {}, FALSE, FALSE),
+  T("OpticsParams", "params", TRUE, 4, TRUE, {}, FALSE, FALSE),
+  T("OpticsValidParams", "params", TRUE, 2, TRUE, {}, FALSE, FALSE),
+  T("OpticsAnalysis", "model", TRUE, 2, TRUE, {}, FALSE, FALSE),
+  T("OpticsSample", "model", TRUE, 2, TRUE, {}, FALSE, FALSE),
+  T("Link", "plain", FALSE, 3, TRUE, {}, FALSE, FALSE),
+  T("LinearRegression", "params", TRUE, 2, TRUE, {}, FALSE, TRUE),
+  T("FittedLinearRegression", "model", TRUE, 2, TRUE, {}, FALSE, TRUE),
+  T("FittedIsotonicRegression", "model", TRUE, 1, TRUE, {}, FALSE, FALSE),
+  T("TweedieRegressorValidParams", "params", TRUE, 3, TRUE, {}, FALSE, TRUE),
+  T("TweedieRegressor", "model", TRUE, 3, TRUE, {}, FALSE, TRUE),
+  T("ElasticNetError", "plain", FALSE, 8, FALSE, {}, FALSE, FALSE),
+  T("ElasticNetValidParams", "params", TRUE, 4, TRUE, {}, FALSE, TRUE),
+  T("ElasticNet", "model", TRUE, 4, FALSE, {}, FALSE, TRUE),
+  T("MultiTaskElasticNetValidParams", "params", TRUE, 2, TRUE, {}, FALSE, TRUE),
+  T("MultiTaskElasticNet", "model", TRUE, 2, FALSE, {}, FALSE, TRUE),
+  T("LogisticRegressionParams", "params", TRUE, 5, TRUE, {}, FALSE, TRUE),
+  T("LogisticRegressionValidParams", "params", TRUE, 3, TRUE, {}, FALSE, TRUE),
+  T("FittedLogisticRegression", "model", TRUE, 3, TRUE, {}, FALSE, TRUE),
+  T("BinaryClassLabels", "model", TRUE, 2, TRUE, {}, FALSE, FALSE),
+  T("ClassLabel", "model", TRUE, 2, TRUE, {}, FALSE, FALSE),
+  T("MultiLogisticRegressionParams", "params", TRUE, 3, TRUE, {}, FALSE, TRUE),
+  T("MultiLogisticRegressionValidParams", "params", TRUE, 2, TRUE, {}, FALSE, TRUE),
+  T("MultiFittedLogisticRegression", "model", TRUE, 2, TRUE, {}, FALSE, TRUE),
+  T("ExitReason", "plain", FALSE, 2, TRUE, {}, FALSE, FALSE),
+  T("SeparatingHyperplane", "plain", TRUE, 2, TRUE, {}, FALSE, FALSE),
+  T("KernelMethod", "plain", TRUE, 3, TRUE, {}, FALSE, FALSE),
+  T("Kernel", "model", TRUE, 4, TRUE, {}, FALSE, TRUE),
+  T("Svm.bool", "model", TRUE, 3, TRUE, {}, FALSE, TRUE),
+  T("Svm.Pr", "model", TRUE, 2, TRUE, {}, FALSE, TRUE),
+  T("Svm.reg", "model", TRUE, 2, TRUE, {}, FALSE, TRUE),
+  T("Svm.oneclass", "model", TRUE, 2, TRUE, {}, FALSE, TRUE),
+  T("SplitQuality", "plain", FALSE, 2, TRUE, {}, FALSE, FALSE),
+  T("DecisionTreeParams", "params", TRUE, 4, TRUE, {}, FALSE, FALSE),
+  T("DecisionTreeValidParams", "params", TRUE, 3, TRUE, {}, FALSE, FALSE),
+  T("DecisionTree", "model", TRUE, 3, TRUE, {}, FALSE, FALSE),
+  T("TreeNode", "model", TRUE, 3, TRUE, {}, FALSE, FALSE),
+  T("GaussianNbValidParams", "params", TRUE, 2, TRUE, {}, FALSE, TRUE),
+  T("GaussianNb", "model", TRUE, 3, TRUE, {}, FALSE, TRUE),
+  T("MultinomialNbValidParams", "params", TRUE, 2, TRUE, {}, FALSE, TRUE),
+  T("MultinomialNb", "model", TRUE, 2, TRUE, {}, FALSE, TRUE),
+  T("FtrlError", "plain", FALSE, 7, FALSE, {}, FALSE, FALSE),
+  T("FtrlParams", "params", TRUE, 4, TRUE, {}, FALSE, TRUE),
+  T("FtrlValidParams", "params", TRUE, 2, TRUE, {}, FALSE, TRUE),
+  T("Ftrl", "model", TRUE, 2, FALSE, {}, FALSE, TRUE),
+  T("PlsRegression", "model", TRUE, 2, TRUE, {}, FALSE, TRUE),
+  T("PlsCanonical", "model", TRUE, 2, TRUE, {}, FALSE, TRUE),
+  T("PlsCca", "model", TRUE, 2, TRUE, {}, FALSE, TRUE),
+  T("PlsSvdParams", "params", TRUE, 2, TRUE, {}, FALSE, TRUE),
+  T("PcaParams", "params", FALSE, 2, TRUE, {}, FALSE, TRUE),
+  T("Pca", "model", FALSE, 2, TRUE, {}, FALSE, TRUE),
+  T("GFunc", "plain", FALSE, 3, TRUE, {}, FALSE, FALSE),
+  T("FastIcaValidParams", "params", TRUE, 3, TRUE, {}, FALSE, TRUE),
+  T("FastIca", "model", TRUE, 3, TRUE, {}, FALSE, TRUE),
+  T("TfIdfMethod", "plain", FALSE, 3, TRUE, {}, FALSE, FALSE),
+  T("WhiteningMethod", "plain", FALSE, 3, TRUE, {}, FALSE, FALSE),
+  T("ScalingMethod", "plain", TRUE, 3, TRUE, {}, FALSE, FALSE),
+  T("NormScaler", "params", TRUE, 3, TRUE, {}, FALSE, TRUE),
+  T("LinearScalerParams", "params", TRUE, 5, TRUE, {}, FALSE, TRUE),
+  T("LinearScaler", "model", TRUE, 4, TRUE, {}, FALSE, TRUE),
+  T("Whitener", "params", TRUE, 3, TRUE, {}, FALSE, TRUE),
+  T("FittedWhitener", "model", TRUE, 3, TRUE, {}, FALSE, TRUE),
+  T("CountVectorizerParams", "params", FALSE, 7, FALSE, {2}, TRUE, FALSE),
+  T("CountVectorizerValidParams", "params", FALSE, 5, FALSE, {2}, FALSE, FALSE),
+  T("CountVectorizer", "model", FALSE, 5, FALSE, {2}, TRUE, FALSE),
+  T("TfIdfVectorizer", "params", FALSE, 6, FALSE, {2}, TRUE, FALSE),
+  T("FittedTfIdfVectorizer", "model", FALSE, 5, FALSE, {2}, TRUE, FALSE)
 >>
 
 Names == {Catalogue[i].name : i \in 1..Len(Catalogue)}
